@@ -24,13 +24,19 @@ def main():
     cfgs = [mc.std_cfg(["x"], period=4, tol=1), mc.std_cfg(["x"], period=4, tol=0), mc.std_cfg(["x"], period=4, tol=4)]
     for mode in ("online", "offline"):
         r = mc.rtamt_mc("C13_" + mode, [phi0, un("once", phi0)], cfgs, vals=(1,), gaps=(0, 2, 3, 4, 5, 6, 8, 9), maxlen=4 if quick else 6,
-                        mode=mode, invariants=["InvC13", "InvC02", "InvC01"], properties=["ActC10"])
+                        mode=mode, invariants=["InvC13", "InvC02", "InvC01", "InvC01cfg"], properties=["ActC10", "ActReconf"])
         rep.add_mc("%s: all gap-class sequences x tolerances {0, 1/4, 1}, Reset anywhere" % mode, r)
         if r["violated"]:
             rep.mc_violation("C13_" + mode, r)
     rr = mc.rtamt_mc("C13_devon", [phi0], cfgs[:1], vals=(1,), gaps=(2, 4), maxlen=3, dev=["resetKeepsViol"], invariants=["InvC13"],
                      expect_violation=True)
     rep.extra["deviation_on_counterexample"] = {"resetKeepsViol": rr["violated"]}
+    # offline, the machine's action Reconfigure moves an object between the three tolerances between evaluations: the counter of an
+    # evaluation is taken under the configuration then in force; the deviation staleConfig (the band of the first evaluation is
+    # memoised) must break that
+    rr = mc.rtamt_mc("C13_devstale", [phi0], cfgs, vals=(1,), gaps=(2, 4, 8), maxlen=3, mode="offline", dev=["staleConfig"],
+                     invariants=["InvC13"], properties=["ActReconf"], expect_violation=True)
+    rep.extra["deviation_on_counterexample"]["staleConfig"] = rr["violated"]
 
     # Apalache: the same counter machine, symbolic in period, tolerance and time-stamps (spec/apalache/CounterAp.tla)
     import subprocess, shutil, time as _t
